@@ -316,3 +316,7 @@ mod tests {
         }
     }
 }
+
+#[cfg(kani)]
+#[path = "/verif/harness/foyer-common/code.rs"]
+mod verif_kani;
